@@ -243,7 +243,11 @@ def near(draw, t, v):
         return w
     if p == "string":
         k = draw(st.integers(0, 3))
-        return (v + "a") if k == 0 else (v[:-1] if k == 1 and v else (v[:-1] + chr(min(126, ord(v[-1]) + 1)) if v else "a"))
+        if k == 0 or not v:
+            return v + "a"
+        if k == 1:
+            return v[:-1]
+        return v[:-1] + (chr(min(126, ord(v[-1]) + 1)) if 32 <= ord(v[-1]) < 127 else " ")
     if p in ("bytes",):
         k = draw(st.integers(0, 2))
         return v + b"\x00" if k == 0 else (v[:-1] if k == 1 and v else b"\x01" + v)
